@@ -1,11 +1,11 @@
-import StoneVerif.Lemmas.FeCompilePatch
+import StoneVerif.Lemmas.FeCompileAnnot
 import StoneVerif.Props.C02Compile
 /-!
 # C01 for the compile model: accepted = legal
 
 `Legal rx fs` (Model/FeCompile.lean) is the conjunction of the rules of the language over the declarations of all
 files, written without reference to the order of files, declarations or passes (names: `FeNames.NoClash`; imports;
-references; aliases; structs and unions; enumerated subtypes; routes; patches).  `compile` follows the passes of
+references; aliases; structs and unions; enumerated subtypes; routes; patches; applied annotations).  `compile` follows the passes of
 `IRGenerator.generate_IR`.  `rx` says which patterns `re.compile` accepts; `nsLexical fs` says that namespace names
 are identifiers (no `/`) -- a fact about the parser's output (token `ID`), not a rule; it is what makes the canonical
 keys of C01's name model unambiguous (`FeNames.register_ok_iff_noclash`).
@@ -19,7 +19,7 @@ that moment -- is, taken together with the others, the order-free rule; and the 
 trip over. -/
 theorem compile_ok_iff_legal (rx : String → Bool) (fs : List File) (hl : nsLexical fs = true) :
     (∃ api, compile rx fs = .ok api) ↔ Legal rx fs = true :=
-  L.compile_ok_iff_legal_patches rx fs hl
+  L.compile_ok_iff_legal_full rx fs hl
 
 /-- **Never refused.** A set of spec files that violates no rule is compiled: no pass refuses it -- and none of
 the model's recursion bounds is hit, no impossible state is reached (`outOfFuel`, `fuelAlias`, `fuelAncestors`,
@@ -146,6 +146,30 @@ example : errOf (compile rx1 (one [.type { name := "S", kind := .union false },
       = some .patchMismatch ∧
     Legal rx1 (one [.type { name := "S", kind := .union false },
                     .patch { name := "S", kind := .union true, fields := [{ name := "a", ty := none }] }]) = false := by
+  decide +kernel
+
+example : errOf (compile rx1 (one [.annot "Dep" .deprecated, .annot "Pre" .preview,
+      .type { name := "S", kind := .struct,
+              fields := [{ name := "x", ty := some (ref "String"), annots := [⟨none, "Dep"⟩, ⟨none, "Pre"⟩] }] }]))
+      = some .deprecatedPreview ∧
+    Legal rx1 (one [.annot "Dep" .deprecated, .annot "Pre" .preview,
+      .type { name := "S", kind := .struct,
+              fields := [{ name := "x", ty := some (ref "String"), annots := [⟨none, "Dep"⟩, ⟨none, "Pre"⟩] }] }]) = false := by
+  decide +kernel
+
+example : errOf (compile rx1 (one [.annot "Blot" .redacted, .alias "A" (ref "String"),
+      .type { name := "S", kind := .struct, fields := [{ name := "x", ty := some (ref "A"), annots := [⟨none, "Blot"⟩] }] }]))
+      = some .redactorOnAliasRef ∧
+    Legal rx1 (one [.annot "Blot" .redacted, .alias "A" (ref "String"),
+      .type { name := "S", kind := .struct, fields := [{ name := "x", ty := some (ref "A"), annots := [⟨none, "Blot"⟩] }] }]) = false := by
+  decide +kernel
+
+/-- legal uses: a redactor on a string member, on an alias definition, Deprecated with Omitted -/
+example : Legal rx1 (one [.annot "Blot" .redacted, .annot "Dep" .deprecated, .annot "Omi" .omitted,
+      .alias "A" (ref "String"), .aliasAnnots "A" [⟨none, "Blot"⟩],
+      .type { name := "S", kind := .struct,
+              fields := [{ name := "x", ty := some (ref "String"), annots := [⟨none, "Dep"⟩, ⟨none, "Omi"⟩, ⟨none, "Blot"⟩] },
+                         { name := "y", ty := some (.app1 (href "List") (ref "A")) }] }]) = true := by
   decide +kernel
 
 example : errOf (compile rx1 (one [.route { name := "r", version := 1, arg := ref "Void", result := ref "Void",
